@@ -169,7 +169,7 @@ theorem step_outs (c c' : Chan) (ev : Ev) (ms : List Msg) (os : List Out) (hw : 
     have hsr : SameRecv c c1 := by
       rcases h1 with ⟨hs1, hs2, h1⟩ | ⟨_, hc1, _⟩
       · have hop : c.sendChanOpen = true := hw.s.chanOpen.mpr hs2
-        have hw0 : WFs { c with sendState := .closePending } :=
+        have hw0 : WFs { c with sendEofPending := decide (c.sendState = .eofPending), sendState := .closePending } :=
           ⟨by simp only [ne_eq, reduceCtorEq, not_false_eq_true, iff_true]; exact hop, by simp⟩
         have sp := flushSend_spec _ _ _ hw0 h1
         exact ⟨sp.same.initWindow, sp.same.readTypes, sp.same.writeTypes, sp.same.eofKeep, sp.same.sendPktsize,
@@ -291,7 +291,7 @@ theorem step_late (c c' : Chan) (ev : Ev) (ms : List Msg) (os : List Out) (hw : 
     have hl1 : SendLate c1 := by
       rcases h1 with ⟨hs1, hs2, h1⟩ | ⟨hl, hc1, _⟩
       · have hop : c.sendChanOpen = true := hw.s.chanOpen.mpr hs2
-        have hw0 : WFs { c with sendState := .closePending } :=
+        have hw0 : WFs { c with sendEofPending := decide (c.sendState = .eofPending), sendState := .closePending } :=
           ⟨by simp only [ne_eq, reduceCtorEq, not_false_eq_true, iff_true]; exact hop, by simp⟩
         exact (flushSend_spec _ _ _ hw0 h1).lateMono (Or.inl rfl)
       · rw [hc1]; exact hl
